@@ -85,6 +85,8 @@ def chain(ctx, model, parser):
             ctx.broken(name, "no operator tokens could be extracted from this precedence level")
         ops = {t for t in tested if t in {"or", "and", "not", "==", "!=", "<>", "<", "<=", ">", ">=", "is",
                                           "+", "-", "*", "/", "%"}}
+        if name == "parse_rel_expr":
+            ops = ops - {"not"}          # the second word of `is not`, looked for only after `is`
         ctx.check("C02.chain", f, None, ops == toks,
                   f"{name} tests operator tokens {sorted(ops)}, expected {sorted(toks)}",
                   expr=f"{name} tokens {sorted(ops)}", site=f"{name}: operator tokens {sorted(toks)}")
